@@ -300,7 +300,8 @@ class SendPaths:
                 ptr = tracer_of(par)
                 for blk in live_calls(par):
                     fn = fn_of(blk)
-                    if fn.get("name") in ("map_err",) and (fn.get("def") or "").startswith("std::result::Result"):
+                    # closures that std calls exactly when the Result is an Err: map_err, unwrap_or_else, or_else
+                    if fn.get("name") in ("map_err", "unwrap_or_else", "or_else") and (fn.get("def") or "").startswith("std::result::Result"):
                         args = ptr.call_args(blk.idx)
                         if len(args) == 2 and args[1][0] == "agg" and args[1][1] == ("closure", body.defn):
                             r = self.classify_result(par, ptr.norm(args[0]))
@@ -329,12 +330,14 @@ class SendPaths:
                                 ctxs.add(c2[:3] if c2 else None)
                     if len(ctxs) == 1 and None not in ctxs:
                         return next(iter(ctxs))
-            if kind == "value" and arm == "true":
+            if kind == "value" and arm in ("true", "false"):
                 s = strip_wrappers(subj)
                 if s[0] == "call":
                     tr = tracer_of(body)
                     fn = tr.call_term(s[1]).get("fn") or {}
-                    if fn.get("name") == "is_err":
+                    # `if r.is_err() {..}` and the else branch of `if r.is_ok() {..} else {..}` (likewise is_none / is_some)
+                    if (fn.get("name"), arm) in (("is_err", "true"), ("is_ok", "false"), ("is_none", "true"), ("is_some", "false")) \
+                            and (fn.get("def") or "").startswith(("std::result::Result", "std::option::Option")):
                         r = self.classify_result(body, tr.norm(tr.call_args(s[1])[0]))
                         if r:
                             return ("guard",) + r
